@@ -1,4 +1,5 @@
-(* C04/Props.v -- property theorems only. *)
+(* C04/Props.v -- property theorems only.  Every theorem holds for every correctly-rounded-operation
+   oracle (fdiv, fmul, fround) and every matrix-inverse oracle: they are universally quantified. *)
 From Coq Require Import ZArith List Bool String.
 From PV Require Import Base.Tok Base.TokArith C04.Model C04.Proofs.
 Import ListNotations.
@@ -14,3 +15,135 @@ Theorem C04_priority : forall ps fs kv,
     forall p', In p' pre -> forall kv', In kv' fs -> pmatch p' (fst kv') = false.
 Proof. exact find_path_spec. Qed.
 Print Assumptions C04_priority.
+
+Theorem C04_priority_none : forall ps fs,
+  find_path ps fs = None <-> forall p, In p ps -> forall kv, In kv fs -> pmatch p (fst kv) = false.
+Proof. exact find_path_none. Qed.
+Print Assumptions C04_priority_none.
+
+(* loading rejects non-monotonic spike times, whatever else the directory contains *)
+Theorem C04_rejects : forall fdiv fmul fround inv fs rate ncd st,
+  load_spike_samples fdiv fmul fround fs rate = Ok st -> ndim (fst st) = 1%nat -> ndim (snd st) = 1%nat ->
+  toks_sorted (a_data (snd st)) = Some false ->
+  load fdiv fmul fround inv fs rate ncd = Err ERejected.
+Proof. exact load_rejects. Qed.
+Print Assumptions C04_rejects.
+
+Theorem C04_loaded_times_sorted : forall fdiv fmul fround inv fs rate ncd m,
+  load fdiv fmul fround inv fs rate ncd = Ok m ->
+  toks_sorted (a_data (l_times m)) = Some true /\ ndim (l_times m) = 1%nat /\ ndim (l_samples m) = 1%nat.
+Proof. exact load_times_sorted. Qed.
+Print Assumptions C04_loaded_times_sorted.
+
+(* KS layout: samples = the file (squeezed), times[i] = samples[i] / rate *)
+Theorem C04_times_ks : forall fdiv fmul fround inv fs rate ncd m kv,
+  load fdiv fmul fround inv fs rate ncd = Ok m -> find_path P_times_ks fs = Some kv ->
+  l_samples m = read_full (snd kv) /\ a_dt (l_times m) = DF64 /\ a_shape (l_times m) = a_shape (l_samples m) /\
+  Forall2 (fun s t => fdiv s rate = Some t) (a_data (l_samples m)) (a_data (l_times m)).
+Proof. exact load_times_ks. Qed.
+Print Assumptions C04_times_ks.
+
+(* ALF layout: times = the stored seconds; samples = the stored samples or round(times * rate) as uint64 *)
+Theorem C04_times_alf : forall fdiv fmul fround inv fs rate ncd m,
+  load fdiv fmul fround inv fs rate ncd = Ok m -> find_path P_times_ks fs = None ->
+  exists kt, find_path P_times_alf fs = Some kt /\ l_times m = read_full (snd kt) /\
+    match find_path P_samples_alf fs with
+    | Some ks => l_samples m = read_full (snd ks)
+    | None => a_dt (l_samples m) = DU64 /\ a_shape (l_samples m) = a_shape (l_times m) /\
+              Forall2 (fun t s => exists p z, fmul t rate = Some p /\ fround p = Some z /\ s = tz z)
+                      (a_data (l_times m)) (a_data (l_samples m))
+    end.
+Proof. exact load_times_alf. Qed.
+Print Assumptions C04_times_alf.
+
+(* every listed attribute is the squeezed (and, when fully loaded, scrubbed) first existing file of
+   its priority list, or the documented default *)
+Theorem C04_attributes : forall fdiv fmul fround inv fs rate ncd m,
+  load fdiv fmul fround inv fs rate ncd = Ok m ->
+  let nc := hd 0 (a_shape (l_cmap m)) in
+  let nt := hd 0 (a_shape (l_tdata m)) in
+  l_amps m = option_map read_full (src P_amps fs) /\
+  (exists a, src P_stemplates fs = Some a /\
+     l_stemplates m = (if dt_is_float (a_dt a) then astype DI32 (read_full a) else read_full a)) /\
+  (exists a, l_sclusters m = astype DI32 (read_full a) /\
+     match src P_sclusters fs with Some f => a = f | None => src P_stemplates fs = Some a end) /\
+  (exists a, src P_cmap fs = Some a /\ l_cmap m = atleast_1d (read_full a)) /\
+  (exists a, src P_pos fs = Some a /\ l_pos m = atleast_2d (read_full a)) /\
+  l_shanks m = match src P_shanks fs with None => zeros DI32 [nc] | Some a => flatten (read_full a) end /\
+  l_probes m = match src P_probes fs with None => zeros DI32 [nc] | Some a => atleast_1d (read_full a) end /\
+  (exists a, src P_templates fs = Some a /\ zero_nan_templates (atleast_3d (squeeze a)) = Ok (l_tdata m)) /\
+  l_wm m = match src P_wm fs with None => eye nc | Some a => atleast_2d (read_full a) end /\
+  l_wmi m = match src P_wmi fs with None => inv (l_wm m) | Some a => atleast_2d (read_full a) end /\
+  l_similar m = match src P_similar fs with None => zeros DF64 [nt; nt] | Some a => atleast_2d (read_full a) end.
+Proof. exact load_attributes. Qed.
+Print Assumptions C04_attributes.
+
+(* what "squeezed and scrubbed" means: same dtype, axes of length 1 dropped, data in the same order,
+   every NaN / +-inf replaced by zero and every finite value unchanged *)
+Theorem C04_scrub : forall a,
+  a_dt (read_full a) = a_dt a /\
+  a_shape (read_full a) = filter (fun d => negb (d =? 1)) (a_shape a) /\
+  Forall (fun t => is_finite t = true) (a_data (read_full a)) /\
+  forall i t, nth_error (a_data a) i = Some t ->
+              nth_error (a_data (read_full a)) i = Some (if is_finite t then t else tzero).
+Proof. intros a. split; [reflexivity|]. split; [reflexivity|]. exact (read_full_scrubbed a). Qed.
+Print Assumptions C04_scrub.
+
+(* extra per-spike attribute arrays: exactly the spike_<n>.npy files outside the reserved names whose
+   first dimension is the number of spikes *)
+Theorem C04_spike_attributes : forall fs ns l, load_spike_attrs fs ns = Ok l ->
+  forall n a, In (n, a) l <->
+    exists fname f, In (fname, f) fs /\ spike_attr_name fname = Some n /\ str_in n SKIP_SPIKE_ATTRS = false /\
+                    a = read_full f /\ hd (ns + 1) (a_shape a) = ns.
+Proof. exact load_attrs_spec. Qed.
+Print Assumptions C04_spike_attributes.
+
+(* frame: the model of loading never rewrites a pre-existing file; the files it creates are exactly
+   the spike-cluster copy (a copy of the spike-template file) when no cluster file exists, and the
+   inverse whitening matrix when that file does not exist *)
+Theorem C04_frame : forall fdiv fmul fround inv fs rate ncd m,
+  load fdiv fmul fround inv fs rate ncd = Ok m ->
+  l_created m =
+    (match src P_sclusters fs with
+     | Some _ => []
+     | None => match src P_stemplates fs with Some a => [("spike_clusters.npy", a)] | None => [] end
+     end) ++
+    (match src P_wmi fs with Some _ => [] | None => [("whitening_mat_inv.npy", l_wmi m)] end).
+Proof. exact load_frame. Qed.
+Print Assumptions C04_frame.
+
+(* raw traces: row i of the loaded traces is row i of the concatenated raw files with the columns
+   listed by the channel map, in the channel map's order *)
+Theorem C04_traces : forall raw cmap rows,
+  traces_full raw cmap = Some rows ->
+  List.length rows = List.length (List.concat raw) /\
+  forall i row, nth_error (List.concat raw) i = Some row ->
+    exists out, nth_error rows i = Some out /\ List.length out = List.length cmap /\
+      forall j c, nth_error cmap j = Some c ->
+        0 <= c < Z.of_nat (List.length row) /\ nth_error out j = nth_error row (Z.to_nat c).
+Proof. exact traces_full_spec. Qed.
+Print Assumptions C04_traces.
+
+(* ---- non-vacuity: a small ALF-named directory without cluster file and without whitening loads ---- *)
+Definition ex_files : files := [
+  ("channels.localCoordinates.npy", mkarr DF64 [2; 2] [TNum 0 0; TNum 0 0; TNum 0 0; TNum 5 2]);
+  ("channels.rawInd.npy", mkarr DI32 [2; 1] [TNum 1 0; TNum 0 0]);
+  ("spikes.templates.npy", mkarr DU32 [3] [TNum 0 0; TNum 1 0; TNum 1 0]);
+  ("spikes.times.npy", mkarr DF64 [3; 1] [TNum 0 0; TNum 1 (-1); TNum 3 (-1)]);
+  ("templates.waveforms.npy", mkarr DF32 [2; 2; 2] [TNum 1 0; TNum 1 1; TNum 3 0; TNum 1 2; TNaN; TNaN; TNaN; TNaN])].
+Definition ex_div (a b : tok) : option tok := Some a.
+Definition ex_mul (a b : tok) : option tok := tmul a b.
+Definition ex_round (t : tok) : option Z := tok_Z t.
+Example C04_ex_loads :
+  match load ex_div ex_mul ex_round (fun a => a) ex_files (TNum 1 1) (Some 2) with
+  | Ok m => l_samples m = mkarr DU64 [3] [TNum 0 0; TNum 1 0; TNum 3 0] /\
+            List.map fst (l_created m) = ["spike_clusters.npy"; "whitening_mat_inv.npy"] /\
+            a_data (l_tdata m) = [TNum 1 0; TNum 1 1; TNum 3 0; TNum 1 2; TNum 0 0; TNum 0 0; TNum 0 0; TNum 0 0]
+  | Err _ => False
+  end.
+Proof. vm_compute. repeat split. Qed.
+Example C04_ex_rejects :
+  load ex_div ex_mul ex_round (fun a => a)
+       (("spike_times.npy", mkarr DI64 [3] [TNum 1 1; TNum 1 0; TNum 3 0]) :: ex_files) (TNum 1 1) (Some 2)
+  = Err ERejected.
+Proof. vm_compute. reflexivity. Qed.
